@@ -101,7 +101,8 @@ def make_plan(rng, nedits, idx):
     """edit descriptors (kind, selector in [0,1), inplace); clone-based replacement only in a slice of the cases"""
     kinds = list(EDIT_KINDS)
     if idx % 10 == 4:
-        kinds += ['replace_rhs_clone'] * 3
+        # clone-based replacement is a known mechanism (stale valid source): only such edits in this slice
+        return [('replace_rhs_clone', rng.random(), rng.random() < 0.4) for _ in range(rng.randint(1, 2))]
     if idx % 10 == 2:
         # Section.append is a known mechanism (appended statement lost): exactly this one edit in this slice
         return [('append', rng.random(), False)]
